@@ -138,9 +138,11 @@ template <class A> bool to_string(const typename A::Uri &u, std::string *out, bo
   int n = 0;
   if (A::ToStringCharsRequired(&u, &n) != 0) return false;
   std::vector<Ch> buf((size_t)n + 1);
+  memset(buf.data(), 0xA5, buf.size() * sizeof(Ch));  // every byte non-zero: a character written only in part stays visible
   int w = 0;
   if (A::ToString(buf.data(), &u, n + 1, &w) != 0) return false;
   if (w != n + 1) return false;
+  if (buf[(size_t)n] != 0) return false;  // not terminated where the reported length says
   if (narrowOk) *narrowOk = narrowable<Ch>(buf.data(), buf.data() + n);
   *out = narrow<Ch>(buf.data(), buf.data() + n);
   return true;
